@@ -212,16 +212,34 @@ def run_case(ctx, case):
         if curve_state(curve) != s1:
             rec.violation("mutating a copy changed the original", case)
         # curves built from the same KnotVector object do not affect each other
-        kv = KnotVector(list(U))
         c1 = make_curve(U, P, W)
-        a_ = Curve(kv, c1.ctrlpoints, c1.weights)
-        b_ = Curve(kv, c1.ctrlpoints, c1.weights)
-        sb = curve_state(b_)
-        impl(lambda: a_.degree_increase(1))
-        impl(lambda: a_.knot_insert([(U[0] + U[-1]) / 2]))
-        if curve_state(b_) != sb or tuple(frac(x) for x in kv) != tuple(U):
-            rec.violation("curves built from one KnotVector object affect each other (or the KnotVector)", case,
-                          sibling=ser(curve_state(b_)), knotvector=ser([frac(x) for x in kv]))
+        mid_ = (U[0] + U[-1]) / 2
+        inner_ = [x for x in kv_info(list(U))[2][1:-1]]
+        muts = [("degree_increase", lambda a: a.degree_increase(1)), ("degree setter +2", lambda a: setattr(a, "degree", a.degree + 2)),
+                ("knot_insert", lambda a: a.knot_insert([mid_])), ("degree_decrease", lambda a: a.degree_decrease(1, None)),
+                ("knot_clean", lambda a: a.knot_clean()), ("degree_clean", lambda a: a.degree_clean()), ("clean", lambda a: a.clean()),
+                ("knot_remove", lambda a: a.knot_remove([inner_[0]], None) if inner_ else None),
+                ("knotvector setter", lambda a: setattr(a, "knotvector", [2 * frac(x) for x in a.knotvector]))]
+        # the mutated sibling with points and weights, without points (basis only), with weights only
+        for kind in ("full", "basis-only", "weights-only"):
+            for mname, mut in muts:
+                kv = KnotVector(list(U))
+                if kind == "full":
+                    a_ = Curve(kv, c1.ctrlpoints, c1.weights)
+                elif kind == "basis-only":
+                    a_ = Curve(kv)
+                else:
+                    a_ = Curve(kv)
+                    if impl(lambda: setattr(a_, "weights", [F(2)] * len(c1.ctrlpoints)))[0] != "ok":
+                        continue
+                b_ = Curve(kv, c1.ctrlpoints, c1.weights)
+                sb = curve_state(b_)
+                impl(lambda: mut(a_))
+                rec.count("sibling", kind)
+                if curve_state(b_) != sb or tuple(frac(x) for x in kv) != tuple(U):
+                    rec.violation("curves built from one KnotVector object affect each other (or the KnotVector)", case, mutated=kind,
+                                  mutator=mname, sibling=ser(curve_state(b_)), knotvector=ser([frac(x) for x in kv]))
+                    return
 
 
 def gen_ops(rng, drv, st, length):
